@@ -66,6 +66,10 @@ def collect(ctx):
     for i in range(14 * k):
         p = drv_hdm.params(rng)
         ts.append(L.from_hdm(drv_hdm.run(p, drv_hdm.history(rng, p, 12), rng.randrange(10 ** 6))))
+    for i in range(4 * k):
+        # batches of a handful of rows: with detect_batch=1 the proxy batch split off a three-row reference is still a batch, and is counted
+        p = dict(drv_hdm.params(rng), db=1, sig=rng.choice([0.5, 1.0]), stat="stdev")
+        ts.append(L.from_hdm(drv_hdm.run(p, drv_hdm.history(rng, p, 12, sizes=[3, 3, 4, 5]), rng.randrange(10 ** 6))))
     for i in range(6 * k):
         p = {"k_nn": 3, "sampling_times": 30, "alpha": rng.choice([0.05, 0.2])}
         ts.append(L.from_nndvi(drv_nn.run_nndvi(p, drv_nn.nndvi_history(rng, 8), rng.randrange(10 ** 6))))
